@@ -274,6 +274,19 @@ func (in *astInliner) expandOnce(fd *ast.FuncDecl) bool {
 					}
 				}
 			}
+			// `return h(args)` with a longer helper that returns several values: its body, with its own returns kept
+			if rs, ok := s.(*ast.ReturnStmt); ok && len(rs.Results) == 1 {
+				if call, ok := ast.Unparen(rs.Results[0]).(*ast.CallExpr); ok {
+					in.multi = true
+					h := in.helperOf(call)
+					in.multi = false
+					if h != nil && h.Type.Results.NumFields() > 1 && len(h.Body.List) > 1 {
+						out = append(out, in.expandStmt(h, call, nil))
+						changed = true
+						continue
+					}
+				}
+			}
 			if rs, ok := s.(*ast.ReturnStmt); ok && len(rs.Results) >= 1 {
 				if call, ok := ast.Unparen(rs.Results[0]).(*ast.CallExpr); ok {
 					if h := in.helperOf(call); h != nil && !singleReturn(h) {
@@ -382,7 +395,7 @@ func (in *astInliner) expandStmt(h *ast.FuncDecl, call *ast.CallExpr, rest []ast
 		if _, isLit := x.(*ast.FuncLit); isLit {
 			return false
 		}
-		if rs, ok := x.(*ast.ReturnStmt); ok && len(rs.Results) == 1 {
+		if rs, ok := x.(*ast.ReturnStmt); ok && len(rs.Results) == 1 && len(rest) > 0 {
 			for _, e := range rest {
 				rs.Results = append(rs.Results, in.clone(e, nil).(ast.Expr))
 			}
